@@ -2,3 +2,23 @@ claim("C04", E1, "exploration", "bounded-exhaustive input enumeration vs indepen
       "Every options area over a 7-symbol code/length alphabet up to length 8 (quick) / 10 (thorough), every truncation, every cookie/option/header byte substitution, every hlen, every NUL position: library verdict and every decoded field must equal the RFC 2131/2132/3396 reference decoder's. Exhaustive inside that scope; the scope holds one symbol per branch of the decoder.",
       "trusted: the reference decoder seq/ref/v4ref (stdlib only, written from the RFCs); small-scope hypothesis for byte values outside the alphabets",
       "DESIGN.md 5/C04")
+claim("C15", E1, "exploration", "bounded-exhaustive input and modifier-list enumeration vs reference builder model",
+      "Full product of request/offer/ack shapes (opcode, flags, giaddr, hwtype, hlen, options 82/61/54/55/50 in 5 states each, yiaddr, ciaddr; hand-built and after a wire trip) through all six builders, and all modifier lists of length <=3 (quick) / <=4 (thorough) over 12 exported With* modifiers, compared with an independent plain-struct reference (RFC defaults, then fold of re-implemented modifiers).",
+      "trusted: seq/ref/v4build (stdlib only); only what the statement asserts is compared (Appendix E); present-but-empty options two-valued (DESIGN 8a-3)",
+      "DESIGN.md 5/C15, Appendix E")
+claim("C16", E1, "exploration", "bounded-exhaustive relay-chain and message enumeration vs list-of-levels reference model",
+      "Every relay chain depth 1..16, every subset of interface-id/remote-id per level up to depth 3 (quick) / 5 (thorough), 4 relay-type patterns, 704 inner messages (11 types x 64 option subsets), as built and after a wire trip: encapsulate/decapsulate identity, hop counts, inner-message lookup, index decapsulation, relay-reply construction and the advertise/request/reply builders against an independent list-of-levels model with its own RFC 8415 encoder/decoder.",
+      "trusted: seq/ref/v6chain (stdlib only); undocumented index ranges and mixed FORW/REPL chains are asserted for no-panic only (see DESIGN 8a)",
+      "DESIGN.md 5/C16, Appendix E")
+claim("C17", E1, "exploration", "bounded-exhaustive raw-value enumeration per typed accessor vs RFC reference interpretation",
+      "For each of 34 typed accessors: all byte strings of length <=2, lengths 0..64 x 6 contents, all strings of length 3..5 over a boundary alphabet, absent/nil cases, decoys under every other code, direct and after a wire trip; plus every exported typed constructor over its boundary domain read back. Oracle: independent per-option RFC interpretation with 'malformed => documented default'.",
+      "trusted: seq/ref/v4opt (stdlib only, RFC 2132/3442/3004/3925/3046/4578/3397/8925/2563); zero-length == absent, nil == empty list (DESIGN 8a-4)",
+      "DESIGN.md 5/C17, Appendix C")
+claim("C18", E1, "exploration", "bounded-exhaustive payload/frame-sequence enumeration vs RFC 791/768/1071 reference",
+      "Write side: every payload length 0..1500 x 8 carry-stressing patterns x address/port pairs, each frame verified by an independent IPv4/UDP parser and checksum verifier. Read side: all sequences of length <=2 (quick) / <=3 (thorough) over a 92-frame alphabet (valid, IP options, padding, bad total length, non-IPv4, non-UDP, truncations, other ports/addresses) x bound-address kinds x buffer sizes, against a reference filter.",
+      "trusted: seq/ref/ipref (stdlib only; self-tested on RFC 1071 known answers); incoming checksums and UDP-length consistency are not demanded (statement silent)",
+      "DESIGN.md 5/C18")
+claim("C19", E1, "exploration", "bounded-exhaustive byte-string / name-list / edit enumeration vs RFC 1035 reference decoder",
+      "All byte strings over a 10-symbol length/letter/pointer alphabet up to length 7 (quick) / 8 (thorough), structural 63/64/255-byte and pointer-offset cases, all name lists over a label set up to 3x3 (quick) / 4x4 (thorough), every single edit (and a second edit) of every accepted set; four-valued reference classification (MUST-ACCEPT / MAY-REJECT / REJECT / UNSPECIFIED).",
+      "trusted: seq/ref/labelref (stdlib only, RFC 1035 3.1/4.1.4, RFC 4704 4.2); UNSPECIFIED classes listed in DESIGN 2.2 checked for stability only",
+      "DESIGN.md 5/C19")
